@@ -48,3 +48,8 @@ func (c *Causal) C06Layers() int {
 	}
 	return n
 }
+
+// C06Enc returns the position bookkeeping of an EncoderCache.
+func (c *EncoderCache) C06Enc() (cached bool, pos, cur int32, reserve bool) {
+	return c.encoderCached, c.encoderPos, c.curPos, c.curReserve
+}
